@@ -60,9 +60,16 @@ def run(prop, tier, seed, replay=None):
     items = [(c, m) for c in cases for m in pathcases.METHODS]
     # XML bodies with an external entity that names a file outside the root (both front ends)
     items += [({"segs": ["N1"], "lead": 1, "enc": "plain", "norm": ["LITERAL"]}, "XMLENT")] * 2
+    # ordinary targets while the collection's index lock is held by someone else: a refused (or
+    # failed) write must not leave its data in the system's temporary directory either
+    for segs, norm in ((["N1", "N2"], ["N1", "N2"]), (["N1", "F"], ["N1", "F"]), (["N1"], ["N1"])):
+        for m in ("PUT", "DELETE", "PROPPATCH", "POST", "MKCALENDAR"):
+            for _ in (0, 1):
+                items.append(({"segs": segs, "lead": 1, "enc": "plain", "norm": norm, "locked": True}, m))
     if replay:
         r = json.load(open(replay))
-        items = [({k: r["case"][k] for k in ("segs", "lead", "enc", "norm")}, r["case"]["method"])]
+        items = [(dict({k: r["case"][k] for k in ("segs", "lead", "enc", "norm")}, locked=r["case"].get("locked", False)),
+                  r["case"]["method"])]
     elif not quick:
         rng.shuffle(items)
         items = items[:14000]
@@ -70,7 +77,7 @@ def run(prop, tier, seed, replay=None):
         # quick: every target that leaves the plain grammar stays; of the plain-encoded ones
         # without an outside / sibling / directory segment a seeded half
         def special(c):
-            return c["enc"] != "plain" or any(x in ("ABS", "OUT", "SIB", "DIR", "..") for x in c["segs"])
+            return c.get("locked") or c["enc"] != "plain" or any(x in ("ABS", "OUT", "SIB", "DIR", "..") for x in c["segs"])
         items = [(c, m) for (c, m) in items if special(c) or rng.random() < 0.5]
     rng.shuffle(items)
     jobs = []
